@@ -59,7 +59,7 @@ pub fn spec(prop: &str) -> Option<PropSpec> {
             &["probe.tree_prefix_checked", "probe.tree_all_orders", "probe.tree_synthetic", "probe.tree_synthetic_child_of_marker", "probe.tree_prefix_dangling_parent", "probe.conflict_at_sync", "probe.three_live_leaves", "probe.revision_index_ge_10", "probe.resolve"]),
         "C11" => s("C11", "exploration", 100000, 1500000, &["probe.write_checked"], &["probe.delivered"],
             "every write of every replica checked against its name; all items of all replicas compared byte-wise after every op; non-trivial = items were written and also travelled between replicas; distinct = distinct op sequence hash",
-            &["probe.write_checked", "probe.meld_items", "probe.delivered", "probe.deliver_duplicate"]),
+            &["probe.write_checked", "probe.meld_items", "probe.delivered", "probe.deliver_duplicate", "enum.damage_walk_steps", "enum.damage_walk_melds"]),
         "C12" => s("C12", "exploration", 100000, 1500000, &["probe.commit_ok", "probe.snapshot", "probe.meld_items"], &[],
             "read() compared before/after commit, snapshot, meld and idle refresh/reload in reachable states; non-trivial = at least one such operation ran; distinct = distinct op sequence hash",
             &["probe.commit_with_array_conflict", "probe.commit_with_object_conflict", "probe.snapshot_staged_something", "probe.meld_items"]),
@@ -92,7 +92,7 @@ pub fn spec(prop: &str) -> Option<PropSpec> {
             &["enum.commit_targets", "enum.meld_targets", "enum.crash_points", "enum.crash_redo", "enum.crash_redo_peer", "enum.write_failures", "enum.retries_completed", "fault.write_err", "fault.disk_full", "fault.crash_snapshot"]),
         "C10" => s("C10", "fault_enumeration", 20000, 300000, &["enum.damage_cases"], &["probe.damage_open_ok"],
             "per generated history, on the richest store: for EVERY item bit flips at first/last/8 seeded positions (thorough: every byte), truncation to 0/1/mid/len-1 (thorough: every length), deletion, all pairs of deletions (thorough: triples), and a fixed list of junk-file classes; at rest then open, in transit then refresh, and (packs only) under an already open replica followed by get_value of every revision; non-trivial = a history whose damage cases were enumerated and at least one damaged store opened; distinct = distinct op sequence hash",
-            &["enum.damage_cases", "enum.damage_cases_in_transit", "enum.damage_cases_live", "enum.damage_walk_steps", "probe.damage_walk_clean_compared", "fault.walk_delete", "fault.walk_restore", "probe.damage_live_read_refused", "probe.damage_open_ok", "probe.damage_open_err", "probe.damage_value_checked", "fault.damage_bitflip", "fault.damage_truncate", "fault.damage_delete", "fault.damage_junk"]),
+            &["enum.damage_cases", "enum.damage_cases_in_transit", "enum.damage_cases_live", "enum.damage_walk_steps", "enum.damage_walk_melds", "probe.damage_walk_clean_compared", "fault.walk_delete", "fault.walk_restore", "probe.damage_live_read_refused", "probe.damage_open_ok", "probe.damage_open_err", "probe.damage_value_checked", "fault.damage_bitflip", "fault.damage_truncate", "fault.damage_delete", "fault.damage_junk"]),
         "C17" => s("C17", "exploration", 6000, 90000, &["probe.backend_calls"], &["contract.write"],
             "run k uses backend k mod 12 of {memory, directory, SQLite file, SQLite in-memory} x {plain, Deflate, Brotli}: (1) a replica history over SimAdapter with the real backend behind it, every read/list answered by the backend and compared with the first-write-wins model, persistent backends re-constructed on restart; (2) a seeded write/read/ranged-read/list/reopen sequence with arbitrary bytes against the same model; non-trivial = both parts ran; distinct = distinct op sequence hash",
             &["contract.write", "contract.second_write", "contract.read_range", "contract.list", "contract.read_missing", "fault.backend_reopen", "probe.backend_calls", "probe.backend.dir", "probe.backend.sqlite", "probe.backend.sqlite+brotli", "probe.backend.memory+flate"]),
